@@ -189,7 +189,10 @@ class FormulaTransformer(m.MatcherDecoratableTransformer):
 
         n_to_s = self.name_to_symbol[i]
         while n_to_s is None:
-            i -= 1
+            # An inlined comprehension (PEP 709) has no symbol table
+            # of its own: its names are in the table of the enclosing scope
+            scope = scope.parent
+            i = next(i for i, v in enumerate(self.scopes) if scope == v)
             n_to_s = self.name_to_symbol[i]
 
         symbol = n_to_s.get(node.value, None)
